@@ -38,7 +38,12 @@ pub fn decode<B: Buf>(size: u8, buf: &mut B) -> Result<(u8, u64), Error> {
     let mut power = 0usize;
     loop {
         let byte = buf.get::<u8>()? as u64;
-        value += (byte & 127) << power;
+        let part = byte & 127;
+        // the tenth continuation byte can only carry bit 63 of a u64
+        if power == MAX_POWER - 7 && part > 1 {
+            return Err(Error::Overflow);
+        }
+        value = value.checked_add(part << power).ok_or(Error::Overflow)?;
         power += 7;
 
         if byte & 128 == 0 {
@@ -77,7 +82,7 @@ pub fn encode<B: BufMut>(size: u8, flags: u8, value: u64, buf: &mut B) {
     buf.write(remaining as u8);
 }
 
-const MAX_POWER: usize = 9 * 7;
+const MAX_POWER: usize = 10 * 7;
 
 impl From<coding::UnexpectedEnd> for Error {
     fn from(_: coding::UnexpectedEnd) -> Self {
